@@ -7,7 +7,8 @@ PROP="${1:?property id}"
 MODE="${2:-quick}"
 VARIANT=asan
 BIN=$(scripts/build.sh "$VARIANT") || exit 2
-mkdir -p evidence replays
+EVID="${VERIF_EVIDENCE_DIR:-/verif/evidence}"
+mkdir -p "$EVID" replays
 export VERIF_SEED="${VERIF_SEED:-1}"
 case "$MODE" in
 replay)
@@ -19,7 +20,7 @@ quick|thorough)
 		exec scripts/check_c18.sh "$MODE"
 	fi
 	exec "$BIN" check --property "$PROP" --tier "$MODE" --seed "$VERIF_SEED" \
-		--evidence "/verif/evidence/$PROP.json" --known /verif/known_findings.json
+		--evidence "$EVID/$PROP.json" --known /verif/known_findings.json
 	;;
 *)
 	echo "usage: check.sh <property> quick|thorough|replay <file>" >&2
